@@ -471,6 +471,8 @@ pub fn run(tier: &str) -> Result<Report, String> {
             vec![("run.2.fixed".into(), fam_sets[1].clone()), ("dom 1".into(), fam_sets[0].clone()), ("x-y".into(), unit.clone()), ("é_2".into(), fam_sets[2].clone()), ("BDD".into(), empty.clone()), ("a.bdd".into(), fam_sets[0].clone())],
             vec![("p".into(), fam_sets[0].clone()), ("zz/p".into(), fam_sets[1].clone()), ("0/p".into(), fam_sets[2].clone()), ("dir/sub/q".into(), unit.clone())],
             fam_sets.iter().enumerate().map(|(i, s)| (format!("s{i}"), s.clone())).chain(results.iter().enumerate().map(|(i, s)| (format!("formula-{i}"), s.clone()))).collect(),
+            // labels that look like the archive's own metadata entries / like reserved words
+            vec![("model".into(), fam_sets[0].clone()), ("formulae".into(), fam_sets[1].clone()), ("model.aeon".into(), fam_sets[2].clone()), ("formulae.txt".into(), unit.clone()), ("sub/model".into(), fam_sets[1].clone()), ("True".into(), fam_sets[0].clone()), ("in".into(), empty.clone())],
             // 70 labels (more entries than any small-collection threshold), names that sort differently as strings and as numbers
             (0..70).map(|i| (format!("formula-{i}"), if i % 5 == 4 { empty.clone() } else if i % 5 == 3 { unit.clone() } else { fam_sets[i % 3].clone() })).collect(),
         ];
@@ -552,6 +554,6 @@ pub fn run(tier: &str) -> Result<Report, String> {
         }
     }
     rep.sample(json!({"network": "con2", "format": "sbml", "k": 2, "labels": ["a", "x_1", "A.b", "formula-0"], "formulae_lines": 3}));
-    rep.rule = format!("networks {which:?} x input format (aeon, aeon with reversed line order, sbml, bnet where the format reproduces the network exactly) x k in {ks:?} x 8 label->set maps (a map with 70 labels formula-0..formula-69; empty map, empty set, unit set, colour-dependent/empty-for-some-colours/colour-disjoint family sets, raw results; labels formula-0, a, x_1, A.b, run.2.fixed, 'dom 1', x-y, é_2, BDD, a.bdd, nested labels zz/p 0/p dir/sub/q next to p, s0..) x 4 formula lists (0-3 lines) x (aeon) 6 histories of the target path (fresh, an earlier result archive of another model with other formulae and overlapping + additional labels, a non-zip file, an empty file, a much longer earlier archive with 200 entries, a 200 kB non-zip file): build_result_archive -> independent unzip (entry list exact, formulae.txt lines) -> model.aeon re-parsed, symbolic context compared by variable names -> load_bdd_bundle (for k >= 1 the map also holds sets that depend on the spare variable sets, compared as BDDs) -> every set compared point-wise on all (state, valid colour) pairs and as BDD -> reloaded sets used as wild-card/domain context of three extended formulae; plus analyse_formulae archives (in process, and through the tool under each of the four print options, on a fresh output path and over a much longer earlier archive): entry formula-i equals the result of line i; plus the chain context archive -> analyse_formulae -> result archive with context sets inside and outside the valid colours (whole symbolic space, raw state variable) vs evaluation with the in-memory sets. distinct_nontrivial = round-trip cases with at least one set");
+    rep.rule = format!("networks {which:?} x input format (aeon, aeon with reversed line order, sbml, bnet where the format reproduces the network exactly) x k in {ks:?} x 9 label->set maps (labels model, formulae, model.aeon, formulae.txt, sub/model, True, in; a map with 70 labels formula-0..formula-69; empty map, empty set, unit set, colour-dependent/empty-for-some-colours/colour-disjoint family sets, raw results; labels formula-0, a, x_1, A.b, run.2.fixed, 'dom 1', x-y, é_2, BDD, a.bdd, nested labels zz/p 0/p dir/sub/q next to p, s0..) x 4 formula lists (0-3 lines) x (aeon) 6 histories of the target path (fresh, an earlier result archive of another model with other formulae and overlapping + additional labels, a non-zip file, an empty file, a much longer earlier archive with 200 entries, a 200 kB non-zip file): build_result_archive -> independent unzip (entry list exact, formulae.txt lines) -> model.aeon re-parsed, symbolic context compared by variable names -> load_bdd_bundle (for k >= 1 the map also holds sets that depend on the spare variable sets, compared as BDDs) -> every set compared point-wise on all (state, valid colour) pairs and as BDD -> reloaded sets used as wild-card/domain context of three extended formulae; plus analyse_formulae archives (in process, and through the tool under each of the four print options, on a fresh output path and over a much longer earlier archive): entry formula-i equals the result of line i; plus the chain context archive -> analyse_formulae -> result archive with context sets inside and outside the valid colours (whole symbolic space, raw state variable) vs evaluation with the in-memory sets. distinct_nontrivial = round-trip cases with at least one set");
     Ok(rep)
 }
